@@ -2,6 +2,7 @@ package lint
 
 import (
 	"fmt"
+	"go/constant"
 	"go/token"
 	"go/types"
 	"sort"
@@ -662,10 +663,172 @@ func (m *Model) eventExpField() *types.Var {
 	return ftab["exp"]
 }
 
+// armCase is one of the four situations that decide whether the timer must be re-armed: is the
+// current deadline unset (0), and how does the new (non-zero) expiry relate to it.
+type armCase struct {
+	curZero bool
+	rel     int // new expiry REL current deadline: -1 <, 0 ==, +1 >
+	want    bool
+}
+
+// armCondOutcome evaluates a comparison under a case. isP recognises the new expiry.
+func armCondOutcome(cd cond, k armCase, isP func(ssa.Value) bool) (outcome, known bool) {
+	isConstV := func(v ssa.Value) bool { _, ok := stripConv(v).(*ssa.Const); return ok }
+	switch {
+	case cd.Op == token.ILLEGAL:
+	case isZeroConst(cd.Y) && isP(cd.X) || isZeroConst(cd.X) && isP(cd.Y):
+		// exp compared with 0: exp is non-zero in all cases considered
+		switch cd.Op {
+		case token.EQL:
+			outcome, known = false, true
+		case token.NEQ, token.GTR:
+			outcome, known = true, true
+		}
+		if isZeroConst(cd.X) && cd.Op == token.LSS { // 0 < exp
+			outcome, known = true, true
+		}
+	case isZeroConst(cd.Y) && !isP(cd.X) || isZeroConst(cd.X) && !isP(cd.Y):
+		// current deadline compared with 0
+		switch cd.Op {
+		case token.EQL:
+			outcome, known = k.curZero, true
+		case token.NEQ:
+			outcome, known = !k.curZero, true
+		case token.GTR:
+			if isZeroConst(cd.Y) {
+				outcome, known = !k.curZero, true
+			}
+		}
+	case isP(cd.X) && !isConstV(cd.Y), isP(cd.Y) && !isConstV(cd.X):
+		rel := k.rel // exp REL cur
+		if isP(cd.Y) {
+			rel = -rel // cur REL exp as written
+		}
+		switch cd.Op {
+		case token.LSS:
+			outcome, known = rel < 0, true
+		case token.LEQ:
+			outcome, known = rel <= 0, true
+		case token.GTR:
+			outcome, known = rel > 0, true
+		case token.GEQ:
+			outcome, known = rel >= 0, true
+		case token.EQL:
+			outcome, known = rel == 0, true
+		case token.NEQ:
+			outcome, known = rel != 0, true
+		}
+	}
+	if known && cd.Neg {
+		// succWhen accounts for the negation; outcome here is that of the un-negated comparison
+	}
+	return
+}
+
+// armCut removes, from fn's CFG, the branch edges that cannot be taken under case k. A branch on
+// the result of a bool predicate helper that is handed the new expiry is decided by evaluating
+// the helper under the same case.
+func (m *Model) armCut(fn *ssa.Function, k armCase, isP func(ssa.Value) bool, depth int) *cut {
+	c := newCut()
+	for _, iff := range allIfs(fn) {
+		cd := condOf(iff)
+		outcome, known := armCondOutcome(cd, k, isP)
+		if !known && cd.Op == token.ILLEGAL && cd.X != nil && depth < 2 {
+			if call, ok := stripConv(cd.X).(*ssa.Call); ok {
+				if vals := m.armPredicate(call, k, isP, depth); len(vals) == 1 {
+					for v := range vals {
+						outcome, known = v, true
+					}
+				}
+			}
+		}
+		if known {
+			c.cutEdge(iff.Block(), cd.succWhen(!outcome))
+		}
+	}
+	return c
+}
+
+// armPredicate: the possible results of a package bool function called with the new expiry, under case k.
+func (m *Model) armPredicate(call *ssa.Call, k armCase, isP func(ssa.Value) bool, depth int) map[bool]bool {
+	h := call.Common().StaticCallee()
+	both := map[bool]bool{true: true, false: true}
+	if h == nil || !m.inPkg(h) || len(h.Blocks) == 0 || h.Signature.Results().Len() != 1 {
+		return both
+	}
+	var hp *ssa.Parameter
+	for i, a := range call.Common().Args {
+		if isP(a) && i < len(h.Params) {
+			hp = h.Params[i]
+		}
+	}
+	if hp == nil {
+		return both
+	}
+	isHP := func(v ssa.Value) bool { return stripConv(v) == ssa.Value(hp) }
+	c := m.armCut(h, k, isHP, depth+1)
+	reach := entryReach(h, c)
+	out := map[bool]bool{}
+	var eval func(v ssa.Value, d int) map[bool]bool
+	eval = func(v ssa.Value, d int) map[bool]bool {
+		v = stripConv(v)
+		if d > 6 {
+			return both
+		}
+		switch x := v.(type) {
+		case *ssa.Const:
+			if x.Value != nil && x.Value.Kind() == constant.Bool {
+				return map[bool]bool{constant.BoolVal(x.Value): true}
+			}
+		case *ssa.UnOp:
+			if x.Op == token.NOT {
+				r := map[bool]bool{}
+				for b := range eval(x.X, d+1) {
+					r[!b] = true
+				}
+				return r
+			}
+		case *ssa.BinOp:
+			cd := cond{Op: x.Op, X: x.X, Y: x.Y}
+			if o, known := armCondOutcome(cd, k, isHP); known {
+				return map[bool]bool{o: true}
+			}
+		case *ssa.Phi:
+			r := map[bool]bool{}
+			for i, e := range x.Edges {
+				pred := x.Block().Preds[i]
+				if !reach[pred.Index] || c.edges[edge{pred.Index, x.Block().Index}] {
+					continue
+				}
+				for b := range eval(e, d+1) {
+					r[b] = true
+				}
+			}
+			if len(r) > 0 {
+				return r
+			}
+		}
+		return both
+	}
+	for _, ret := range returnsOf(h) {
+		if !reach[ret.Block().Index] {
+			continue
+		}
+		for b := range eval(ret.Results[0], 0) {
+			out[b] = true
+		}
+	}
+	if len(out) == 0 {
+		return both
+	}
+	return out
+}
+
 func (m *Model) ruleExpArm(r *Results, rule string, arms []*ssa.Function) {
 	// among the arm functions' extents: the function that compares its (uint32) parameter with the
-	// current deadline. The two quantities are only compared with each other and with 0, so the
-	// behaviour is decided by four cases; the setter must be reached exactly in the right ones.
+	// current deadline (itself or through a bool predicate it is handed to). The two quantities are
+	// only compared with each other and with 0, so the behaviour is decided by four cases; the
+	// setter must be reached exactly in the right ones.
 	n := 0
 	seen := map[*ssa.Function]bool{}
 	for _, af := range arms {
@@ -679,18 +842,6 @@ func (m *Model) ruleExpArm(r *Results, rule string, arms []*ssa.Function) {
 			}
 			isP := func(v ssa.Value) bool { return stripConv(v) == ssa.Value(P) }
 			isConstV := func(v ssa.Value) bool { _, ok := stripConv(v).(*ssa.Const); return ok }
-			compares := false
-			for _, iff := range allIfs(fn) {
-				cd := condOf(iff)
-				if cd.Op != token.ILLEGAL && (isP(cd.X) && !isConstV(cd.Y) || isP(cd.Y) && !isConstV(cd.X)) {
-					compares = true
-				}
-			}
-			if !compares {
-				continue
-			}
-			seen[fn] = true
-			n++
 			var setCall ssa.CallInstruction
 			m.eachCall(fn, func(c ssa.CallInstruction) {
 				if callee := c.Common().StaticCallee(); callee != nil && m.inPkg(callee) {
@@ -703,74 +854,40 @@ func (m *Model) ruleExpArm(r *Results, rule string, arms []*ssa.Function) {
 					}
 				}
 			})
+			compares := false
+			for _, iff := range allIfs(fn) {
+				cd := condOf(iff)
+				if cd.Op != token.ILLEGAL && (isP(cd.X) && !isConstV(cd.Y) || isP(cd.Y) && !isConstV(cd.X)) {
+					compares = true
+				}
+				// a predicate helper that is handed the new expiry and guards the setter
+				if cd.Op == token.ILLEGAL && cd.X != nil && setCall != nil {
+					if call, ok := stripConv(cd.X).(*ssa.Call); ok {
+						if h := call.Common().StaticCallee(); h != nil && m.inPkg(h) && h.Signature.Results().Len() == 1 && types.Identical(h.Signature.Results().At(0).Type(), types.Typ[types.Bool]) {
+							for _, a := range call.Common().Args {
+								if isP(a) {
+									compares = true
+								}
+							}
+						}
+					}
+				}
+			}
+			if !compares {
+				continue
+			}
+			seen[fn] = true
+			n++
 			key := "c / " + m.declName(fn) + " / re-arm condition"
 			if setCall == nil {
 				r.bad(rule, key, m.pos(fn.Pos()), "the arm function never (re)schedules the timer")
 				continue
 			}
-			// cases: (current deadline is 0?, new expiry relative to current: -1 <, 0 ==, +1 >); exp itself is non-zero here
-			type kase struct {
-				curZero bool
-				rel     int
-				want    bool
-			}
-			cases := []kase{{true, +1, true}, {false, -1, true}, {false, 0, false}, {false, +1, false}}
+			cases := []armCase{{true, +1, true}, {false, -1, true}, {false, 0, false}, {false, +1, false}}
 			okAll := true
 			detail := ""
 			for _, k := range cases {
-				c := newCut()
-				for _, iff := range allIfs(fn) {
-					cd := condOf(iff)
-					var outcome, known bool
-					switch {
-					case cd.Op == token.ILLEGAL:
-					case isZeroConst(cd.Y) && isP(cd.X) || isZeroConst(cd.X) && isP(cd.Y):
-						// exp compared with 0: exp is non-zero in all cases considered
-						switch cd.Op {
-						case token.EQL:
-							outcome, known = false, true
-						case token.NEQ, token.GTR:
-							outcome, known = true, true
-						}
-						if isZeroConst(cd.X) && cd.Op == token.LSS { // 0 < exp
-							outcome, known = true, true
-						}
-					case isZeroConst(cd.Y) && !isP(cd.X) || isZeroConst(cd.X) && !isP(cd.Y):
-						// current deadline compared with 0
-						switch cd.Op {
-						case token.EQL:
-							outcome, known = k.curZero, true
-						case token.NEQ:
-							outcome, known = !k.curZero, true
-						case token.GTR:
-							if isZeroConst(cd.Y) {
-								outcome, known = !k.curZero, true
-							}
-						}
-					case isP(cd.X) && !isConstV(cd.Y), isP(cd.Y) && !isConstV(cd.X):
-						rel := k.rel // exp REL cur
-						if isP(cd.Y) {
-							rel = -rel // cur REL exp as written
-						}
-						switch cd.Op {
-						case token.LSS:
-							outcome, known = rel < 0, true
-						case token.LEQ:
-							outcome, known = rel <= 0, true
-						case token.GTR:
-							outcome, known = rel > 0, true
-						case token.GEQ:
-							outcome, known = rel >= 0, true
-						case token.EQL:
-							outcome, known = rel == 0, true
-						case token.NEQ:
-							outcome, known = rel != 0, true
-						}
-					}
-					if known {
-						c.cutEdge(iff.Block(), cd.succWhen(!outcome))
-					}
-				}
+				c := m.armCut(fn, k, isP, 0)
 				got := entryReach(fn, c)[setCall.Block().Index]
 				if got != k.want {
 					okAll = false
@@ -882,78 +999,18 @@ func (m *Model) ruleExpOffset(r *Results, rule string) {
 		r.bad(rule, key, m.pos(fn.Pos()), "the offset-to-absolute function no longer adds the current time")
 		return
 	}
-	// The parameter is only compared with constants: the set of inputs for which control reaches
-	// the addition is a finite union of intervals, computed path by path.
+	// The parameter is only compared with constants (directly or inside a bool predicate it is
+	// handed to): the set of inputs for which control reaches the addition is a finite union of
+	// intervals, computed path by path.
 	const maxU = uint64(1<<32 - 1)
 	got := ivSet{}
-	var walk func(b, from *ssa.BasicBlock, cur ivSet, seen map[int]bool)
-	walk = func(b, from *ssa.BasicBlock, cur ivSet, seen map[int]bool) {
-		if len(cur) == 0 || seen[b.Index] {
-			return
-		}
+	m.ivWalk(fn, P, maxU, 0, func(b, from *ssa.BasicBlock, cur ivSet) bool {
 		if b == add.Block() {
 			got = got.union(cur)
-			return
+			return true
 		}
-		seen[b.Index] = true
-		defer delete(seen, b.Index)
-		if len(b.Instrs) == 0 {
-			return
-		}
-		iff, ok := b.Instrs[len(b.Instrs)-1].(*ssa.If)
-		if !ok {
-			for _, s := range b.Succs {
-				walk(s, b, cur, seen)
-			}
-			return
-		}
-		cd := condOf(iff)
-		// a condition kept in a variable: the value depends on the predecessor we came from
-		if phi, _ := phiIf(b); phi != nil && from != nil {
-			for i, p := range b.Preds {
-				if p != from {
-					continue
-				}
-				if forced, ok := constBoolOutcome(b, i); ok {
-					walk(forced, b, cur, seen)
-					return
-				}
-				neg := false
-				v := iff.Cond
-				for {
-					if u, ok := v.(*ssa.UnOp); ok && u.Op == token.NOT {
-						neg = !neg
-						v = u.X
-						continue
-					}
-					break
-				}
-				cd = condOfValue(phi.Edges[i], iff)
-				if neg {
-					cd.Neg = !cd.Neg
-				}
-			}
-		}
-		var cst uint64
-		var op token.Token
-		okCmp := false
-		if c, ok := stripConv(cd.Y).(*ssa.Const); ok && c.Value != nil && cd.X != nil && stripConv(cd.X) == ssa.Value(P) {
-			cst, op, okCmp = c.Uint64(), cd.Op, true
-		} else if c, ok := stripConv(cd.X).(*ssa.Const); ok && c.Value != nil && cd.Y != nil && stripConv(cd.Y) == ssa.Value(P) {
-			cst, okCmp = c.Uint64(), true
-			op = map[token.Token]token.Token{token.LSS: token.GTR, token.GTR: token.LSS, token.LEQ: token.GEQ, token.GEQ: token.LEQ, token.EQL: token.EQL, token.NEQ: token.NEQ}[cd.Op]
-		}
-		if !okCmp || op == token.ILLEGAL {
-			for _, s := range b.Succs {
-				walk(s, b, cur, seen)
-			}
-			return
-		}
-		holds := ivFor(op, cst, maxU)
-		walk(cd.succWhen(true), b, cur.intersect(holds), seen)
-		walk(cd.succWhen(false), b, cur.intersect(holds.complement(maxU)), seen)
-	}
-	walk(fn.Blocks[0], nil, ivSet{{0, maxU}}, map[int]bool{})
+		return false
+	})
 	want := ivSet{{1, 60 * 60 * 24 * 30}}
 	r.check(got.equal(want), rule, key, m.instrPos(add), "now is added exactly when 0 < exp <= 30 days (inputs reaching the addition: "+got.String()+")", "the offset-to-absolute conversion is applied for inputs "+got.String()+", not exactly for 0 < exp <= 2592000 (30 days): offsets at the boundary are stored raw, or absolute times are shifted")
 }
@@ -1264,19 +1321,11 @@ func (m *Model) ruleCHECKPOINT(r *Results) {
 						}
 					}
 				}
-				if bo, ok := ins.(*ssa.BinOp); ok && bo.Op == token.ADD {
-					if _, vf, ok := fieldLoad(bo.X); ok && vf == casField {
-						if c, ok := bo.Y.(*ssa.Const); ok && c.Value != nil && c.Uint64() == 1 {
-							// flows to the backfill call's start argument
-							m.eachCall(f, func(c2 ssa.CallInstruction) {
-								if c2.Common().StaticCallee() == bs[0].Fn {
-									for _, arg := range c2.Common().Args {
-										if flowsThroughPhi(bo, arg) {
-											resumed = true
-										}
-									}
-								}
-							})
+				if c2, ok := ins.(ssa.CallInstruction); ok && c2.Common().StaticCallee() == bs[0].Fn {
+					// (mark + 1) flows to the backfill call's start argument, possibly through a helper's result
+					for _, arg := range c2.Common().Args {
+						if m.isMarkPlusOne(arg, casField, 0) {
+							resumed = true
 						}
 					}
 				}
@@ -1287,7 +1336,12 @@ func (m *Model) ruleCHECKPOINT(r *Results) {
 	r.check(resumed, rule, "resume from mark + 1", "-", "a resumed feed backfills from (persisted mark + 1), with an inclusive lower bound (R-BACKFILL)", "a resumed feed does not start its backfill at (persisted mark + 1)")
 	// on loop exit the checkpoint writer is reached whenever the changed flag is set
 	var writer ssa.CallInstruction
-	m.eachCall(fn, func(c ssa.CallInstruction) {
+	root, _ := m.feedRoot()
+	if root == nil {
+		root = fn
+	}
+	name = m.declName(root)
+	m.eachCall(root, func(c ssa.CallInstruction) {
 		if callee := c.Common().StaticCallee(); callee != nil && m.inPkg(callee) && !inCycle(c.Block()) {
 			for g := range m.reachableLocal(callee) {
 				for _, b := range g.Blocks {
@@ -1303,10 +1357,10 @@ func (m *Model) ruleCHECKPOINT(r *Results) {
 		}
 	})
 	if writer == nil {
-		r.bad(rule, name+" / checkpoint written on exit", m.pos(fn.Pos()), "the feed loop never writes its checkpoint when it stops")
+		r.bad(rule, name+" / checkpoint written on exit", m.pos(root.Pos()), "the feed loop never writes its checkpoint when it stops")
 	} else {
 		conds := 0
-		for _, ct := range controllingConds(fn, writer.Block()) {
+		for _, ct := range controllingConds(root, writer.Block()) {
 			if !inCycle(ct.If.Block()) {
 				conds++
 			}
@@ -1351,4 +1405,198 @@ func (m *Model) onlyFeedCollection(v ssa.Value, depth int) bool {
 		}
 	}
 	return false
+}
+
+// isMarkPlusOne: the value can be (delivered-CAS mark + 1), directly, through a phi, or as the
+// result of a package helper that returns it.
+func (m *Model) isMarkPlusOne(v ssa.Value, casField *types.Var, depth int) bool {
+	if depth > 4 {
+		return false
+	}
+	v = stripConv(v)
+	switch x := v.(type) {
+	case *ssa.BinOp:
+		if x.Op == token.ADD {
+			if _, vf, ok := fieldLoad(x.X); ok && vf == casField {
+				if c, ok := x.Y.(*ssa.Const); ok && c.Value != nil && c.Uint64() == 1 {
+					return true
+				}
+			}
+		}
+	case *ssa.Phi:
+		for _, e := range x.Edges {
+			if m.isMarkPlusOne(e, casField, depth+1) {
+				return true
+			}
+		}
+	case *ssa.Extract:
+		if call, ok := x.Tuple.(*ssa.Call); ok {
+			return m.resultIsMarkPlusOne(call, x.Index, casField, depth)
+		}
+	case *ssa.Call:
+		return m.resultIsMarkPlusOne(x, 0, casField, depth)
+	case *ssa.UnOp:
+		if x.Op == token.MUL {
+			if al, ok := x.X.(*ssa.Alloc); ok {
+				for _, ref := range *al.Referrers() {
+					if st, ok := ref.(*ssa.Store); ok && st.Addr == ssa.Value(al) && m.isMarkPlusOne(st.Val, casField, depth+1) {
+						return true
+					}
+				}
+			}
+		}
+	}
+	return false
+}
+
+func (m *Model) resultIsMarkPlusOne(call *ssa.Call, idx int, casField *types.Var, depth int) bool {
+	callee := call.Common().StaticCallee()
+	if callee == nil || !m.inPkg(callee) {
+		return false
+	}
+	for _, ret := range returnsOf(callee) {
+		if idx < len(ret.Results) && m.isMarkPlusOne(ret.Results[idx], casField, depth+1) {
+			return true
+		}
+	}
+	return false
+}
+
+// ivWalk explores fn path by path, tracking the set of values of parameter P for which each
+// block is entered (P is only ever compared with constants, or handed to a bool predicate for
+// which the same holds). visit is called on entering a block and may stop the path there.
+func (m *Model) ivWalk(fn *ssa.Function, P *ssa.Parameter, maxU uint64, depth int, visit func(b, from *ssa.BasicBlock, cur ivSet) bool) {
+	var walk func(b, from *ssa.BasicBlock, cur ivSet, seen map[int]bool)
+	walk = func(b, from *ssa.BasicBlock, cur ivSet, seen map[int]bool) {
+		if len(cur) == 0 || seen[b.Index] {
+			return
+		}
+		if visit(b, from, cur) {
+			return
+		}
+		seen[b.Index] = true
+		defer delete(seen, b.Index)
+		if len(b.Instrs) == 0 {
+			return
+		}
+		iff, ok := b.Instrs[len(b.Instrs)-1].(*ssa.If)
+		if !ok {
+			for _, s := range b.Succs {
+				walk(s, b, cur, seen)
+			}
+			return
+		}
+		cd := condOf(iff)
+		// a condition kept in a variable: the value depends on the predecessor we came from
+		if phi, _ := phiIf(b); phi != nil && from != nil {
+			for i, p := range b.Preds {
+				if p != from {
+					continue
+				}
+				if forced, ok := constBoolOutcome(b, i); ok {
+					walk(forced, b, cur, seen)
+					return
+				}
+				neg := false
+				v := iff.Cond
+				for {
+					if u, ok := v.(*ssa.UnOp); ok && u.Op == token.NOT {
+						neg = !neg
+						v = u.X
+						continue
+					}
+					break
+				}
+				cd = condOfValue(phi.Edges[i], iff)
+				if neg {
+					cd.Neg = !cd.Neg
+				}
+			}
+		}
+		holds, okCmp := m.ivHolds(cd, P, maxU, depth)
+		if !okCmp {
+			for _, s := range b.Succs {
+				walk(s, b, cur, seen)
+			}
+			return
+		}
+		walk(cd.succWhen(true), b, cur.intersect(holds), seen)
+		walk(cd.succWhen(false), b, cur.intersect(holds.complement(maxU)), seen)
+	}
+	walk(fn.Blocks[0], nil, ivSet{{0, maxU}}, map[int]bool{})
+}
+
+// ivHolds: the set of values of P for which the (un-negated) condition is true.
+func (m *Model) ivHolds(cd cond, P *ssa.Parameter, maxU uint64, depth int) (ivSet, bool) {
+	if cd.Op == token.ILLEGAL {
+		// a bool predicate of the package that is handed P
+		if cd.X == nil || depth >= 2 {
+			return nil, false
+		}
+		call, ok := stripConv(cd.X).(*ssa.Call)
+		if !ok {
+			return nil, false
+		}
+		h := call.Common().StaticCallee()
+		if h == nil || !m.inPkg(h) || len(h.Blocks) == 0 || h.Signature.Results().Len() != 1 {
+			return nil, false
+		}
+		var hp *ssa.Parameter
+		for i, a := range call.Common().Args {
+			if stripConv(a) == ssa.Value(P) && i < len(h.Params) {
+				hp = h.Params[i]
+			}
+		}
+		if hp == nil {
+			return nil, false
+		}
+		truth := ivSet{}
+		decided := true
+		m.ivWalk(h, hp, maxU, depth+1, func(b, from *ssa.BasicBlock, cur ivSet) bool {
+			if len(b.Instrs) == 0 {
+				return false
+			}
+			ret, ok := b.Instrs[len(b.Instrs)-1].(*ssa.Return)
+			if !ok {
+				return false
+			}
+			v := stripConv(ret.Results[0])
+			if phi, ok := v.(*ssa.Phi); ok && phi.Block() == b && from != nil {
+				for i, p := range b.Preds {
+					if p == from {
+						v = stripConv(phi.Edges[i])
+					}
+				}
+			}
+			switch x := v.(type) {
+			case *ssa.Const:
+				if x.Value != nil && constant.BoolVal(x.Value) {
+					truth = truth.union(cur)
+				}
+			case *ssa.BinOp:
+				if hs, ok := m.ivHolds(cond{Op: x.Op, X: x.X, Y: x.Y}, hp, maxU, depth+1); ok {
+					truth = truth.union(cur.intersect(hs))
+				} else {
+					decided = false
+				}
+			default:
+				decided = false
+			}
+			return true
+		})
+		return truth, decided
+	}
+	var cst uint64
+	var op token.Token
+	okCmp := false
+	if c, ok := stripConv(cd.Y).(*ssa.Const); ok && c.Value != nil && cd.X != nil && stripConv(cd.X) == ssa.Value(P) {
+		cst, op, okCmp = c.Uint64(), cd.Op, true
+	} else if c, ok := stripConv(cd.X).(*ssa.Const); ok && c.Value != nil && cd.Y != nil && stripConv(cd.Y) == ssa.Value(P) {
+		cst, okCmp = c.Uint64(), true
+		op = map[token.Token]token.Token{token.LSS: token.GTR, token.GTR: token.LSS, token.LEQ: token.GEQ, token.GEQ: token.LEQ, token.EQL: token.EQL, token.NEQ: token.NEQ}[cd.Op]
+	}
+	if !okCmp || op == token.ILLEGAL {
+		return nil, false
+	}
+	return ivFor(op, cst, maxU), true
 }
